@@ -124,6 +124,51 @@ void drv_c17_stream(int tier, unsigned long seed, const char *extra) {
   priv_begin(); mpz_clear(v); mpz_clear(w); mpq_clear(q); mpq_clear(q2); mpf_clear(f1); mpf_clear(f2); priv_end();
 }
 
+/* c17_corners: the text and raw stream functions on corner-alphabet operands (every integer of up to 3 limbs over {0, 1, 2^63, 2^64-1}; every
+   numerator/denominator PAIR of up to 2 limbs each, plus 3-limb denominators, made canonical) -- no faults, whole round trips.  The limb values that make a
+   single-limb shortcut lie about a longer operand (low limb 1 or 0 under higher limbs, all ones) are enumerated here, not hoped for. */
+static int corner_z(mpz_ptr z, long t, int n) {        /* tuple index t -> n limbs over the alphabet; returns 0 when the top limb is zero */
+  static const mp_limb_t al[4] = {0, 1, (mp_limb_t)1 << 63, ~(mp_limb_t)0}; int k;
+  _mpz_realloc(z, n); for (k = 0; k < n; k++) { PTR(z)[k] = al[t & 3]; t >>= 2; } SIZ(z) = n; return PTR(z)[n - 1] != 0;
+}
+void drv_c17_corners(int tier, unsigned long seed, const char *extra) {
+  shard_t sh = shard_parse(extra); long x = 0, tn, td; int nn, nd, bi; mpz_t w; mpq_t q, q2;
+  static const int bases[] = {10, 16, 62, -16, 3, 36};
+  priv_begin(); mpz_init(w); mpq_init(q); mpq_init(q2); priv_end();
+  for (nd = 1; nd <= 3; nd++) for (td = 0; td < (1L << (2 * nd)); td++) for (nn = 1; nn <= (nd == 3 ? 1 : 2); nn++) for (tn = 0; tn < (1L << (2 * nn)); tn++) {
+    mstream m; FILE *fp; size_t ret, full; unsigned char *valid; int ok;
+    x++; if (!MINE(sh, x)) continue;
+    if (sh.pure && (nd > 1 || nn > 1)) continue;
+    priv_begin(); ok = corner_z(mpq_denref(q), td, nd) && corner_z(mpq_numref(q), tn, nn); if (ok) { if ((tn + td) & 1) mpz_neg(mpq_numref(q), mpq_numref(q)); mpq_canonicalize(q); } priv_end();
+    if (!ok) continue;
+    rec_reset("c17_corners", x, seed);
+    for (bi = 0; bi < (tier ? 6 : 3); bi++) { int base = bases[(bi + x) % 6], ab = base < 0 ? -base : base; char txt[1024];
+      fp = ms_open_w(&m, -1); ret = mpq_out_str(fp, base, q); fclose(fp); full = m.len; valid = malloc(full + 1); memcpy(valid, m.buf, full);
+      fn_begin("mpq_out_str"); in_z("n", mpq_numref(q)); in_z("d", mpq_denref(q)); fn_in_int("base", base); fn_in_int("fault", -1); fn_mid(); fn_out_int("ret", ret); fn_out_strn("text", (char *)m.buf, m.len); fn_end(); free(m.buf);
+      if (full < sizeof txt - 1) { memcpy(txt, valid, full); txt[full] = 0;
+        fn_begin("mpq_inp_str"); fn_in_str("text", txt); in_z("n", mpq_numref(q)); in_z("d", mpq_denref(q)); fn_in_int("base", ab); fn_in_int("whole", 1); fn_mid();
+        fp = ms_open_r(&m, (unsigned char *)txt, full); priv_begin(); ret = mpq_inp_str(q2, fp, ab); priv_end(); fclose(fp); free(m.buf);
+        fn_out_int("ret", ret); out_z("n", mpq_numref(q2)); out_z("d", mpq_denref(q2)); fn_out_int("wf", wf(mpq_numref(q2)) && wf(mpq_denref(q2))); fn_end(); }
+      free(valid);
+      /* the denominator alone as an integer: text and raw */
+      if (nn == 1 && tn == 1) { mpz_srcptr v = mpq_denref(q); char *hb;
+        fp = ms_open_w(&m, -1); ret = mpz_out_str(fp, base, v); fclose(fp); full = m.len;
+        fn_begin("mpz_out_str"); in_z("v", v); fn_in_int("base", base); fn_in_int("fault", -1); fn_mid(); fn_out_int("ret", ret); fn_out_strn("text", (char *)m.buf, m.len); fn_end();
+        if (full < sizeof txt - 1) { memcpy(txt, m.buf, full); txt[full] = 0; free(m.buf);
+          fn_begin("mpz_inp_str"); fn_in_str("text", txt); fn_in_int("base", ab); fn_mid();
+          fp = ms_open_r(&m, (unsigned char *)txt, full); priv_begin(); mpz_set_si(w, 99); ret = mpz_inp_str(w, fp, ab); priv_end(); fclose(fp); free(m.buf);
+          fn_out_int("ret", ret); out_z("v", w); fn_out_int("wf", wf(w)); fn_end(); } else free(m.buf);
+        if (bi == 0) { unsigned char *raw;
+          fp = ms_open_w(&m, -1); ret = mpz_out_raw(fp, v); fclose(fp); full = m.len; raw = malloc(full + 1); memcpy(raw, m.buf, full);
+          fn_begin("mpz_out_raw"); in_z("v", v); fn_in_int("fault", -1); fn_mid(); hb = hexbytes(m.buf, m.len); fn_out_int("ret", ret); fn_out_str("bytes", hb); fn_end(); free(m.buf);
+          fn_begin("mpz_inp_raw"); fn_in_str("bytes", hb); fn_mid();
+          fp = ms_open_r(&m, raw, full); priv_begin(); mpz_set_si(w, -777); ret = mpz_inp_raw(w, fp); priv_end(); fclose(fp); free(m.buf);
+          fn_out_int("ret", ret); out_z("v", w); fn_out_int("wf", wf(w)); fn_end(); free(hb); free(raw); } }
+    }
+  }
+  priv_begin(); mpz_clear(w); mpq_clear(q); mpq_clear(q2); priv_end();
+}
+
 /* R3: replays the (function, value, fault position) behaviours enumerated by TLC (IOModel with EMIT): lines "fn value pos" */
 void drv_c17_replay(int tier, unsigned long seed, const char *extra) {
   shard_t sh = shard_parse(extra); const char *path = opt_val(&sh, "file"); FILE *lf; char fn[32]; long v, t, lines = 0; mpz_t z, w;
